@@ -32,7 +32,7 @@ ASSUMPTIONS = ["mtime is advanced by whole seconds through os.utime (logical clo
 REQUIRED_MONITORS = ["evaluates_current_sources", "source_to_library_injective", "cache_listing_is_image"]
 REQUIRED_BUCKETS = {"quick": ["op:edit_py_const", "op:edit_py_default", "op:edit_inc", "op:edit_template", "op:dtype",
                               "op:revert", "eval:same_process", "eval:fresh_process", "revert_then_same_process",
-                              "default_only_edit_then_same_process", "clock:past", "clock:future", "clock:near-now"]}
+                              "default_only_edit_then_same_process", "clock:past", "clock:future", "clock:near-now", "clock:subsecond"]}
 REQUIRED_BUCKETS["thorough"] = REQUIRED_BUCKETS["quick"]
 HERE = os.path.dirname(os.path.abspath(__file__))
 FSIZE = {"single": 4.0, "double": 8.0, "quad": 16.0}
@@ -73,7 +73,13 @@ class World:
         # The clock starts in the past, just before the system's "now" (so that later edits cross it), or ahead
         # of it (files stamped by a machine whose clock runs ahead, archive time stamps): the statement is about
         # content and time-stamp order, not about the relation to this machine's wall clock.
-        self.now = {"past": 1_700_000_000, "near-now": int(time.time()) - 7, "future": int(time.time()) + 7200}[epoch]
+        self.now = {"past": 1_700_000_000, "near-now": int(time.time()) - 7, "future": int(time.time()) + 7200,
+                    "subsecond": 1_700_000_000}[epoch]
+        # quick successive saves: several edits inside one wall-clock second (file systems keep ns time stamps).
+        # CPython's own .pyc validation has 1 s granularity, so byte-code caching is switched off for these
+        # histories; what is observed is sasmodels' reload decision only.
+        self.tick = 0.3 if epoch == "subsecond" else 2
+        self.epoch = epoch
         self.state = {"K": 1, "D": 1, "V": 1, "T": 1}
         self.history = {"py": [], "inc": [], "tpl": []}
         self.write("py")
@@ -91,7 +97,7 @@ class World:
             self.state.update(snapshot)
         with open(self.files[which], "w") as f:
             f.write(self.text(which))
-        self.now += 2
+        self.now += self.tick
         os.utime(self.files[which], (self.now, self.now))
         keys = {"py": ("K", "D"), "inc": ("V",), "tpl": ("T",)}[which]
         self.history[which].append({k: self.state[k] for k in keys})
@@ -99,7 +105,10 @@ class World:
     def env(self):
         e = dict(os.environ)
         e.update({"SAS_DLL_PATH": self.cache, "PYTHONPATH": self.pkg, "SAS_OPENCL": "none", "TMPDIR": self.root,
-                  "PYTHONDONTWRITEBYTECODE": "0", "PYTHONPYCACHEPREFIX": os.path.join(self.root, "pyc")})
+                  "PYTHONDONTWRITEBYTECODE": "1" if self.epoch == "subsecond" else "0",
+                  "PYTHONPYCACHEPREFIX": os.path.join(self.root, "pyc")})
+        if self.epoch == "subsecond":
+            e["PYTHONDONTWRITEBYTECODE"] = "1"
         return e
 
     def start_server(self):
@@ -167,7 +176,7 @@ def gen_history(rng, h):
 def run_case(case, rec):
     rng = core.rng_for(case["seed"], PROP, case["h"])
     root = tempfile.mkdtemp(prefix="c17-", dir=os.environ.get("RTM_SCRATCH"))
-    epoch = ["past", "future", "past", "near-now"][case["h"] % 4]
+    epoch = ["past", "future", "subsecond", "near-now", "past"][case["h"] % 5]
     rec.bucket("clock:" + epoch)
     w = World(root, epoch)
     dtype = "double"
